@@ -219,6 +219,11 @@ deriving DecidableEq, Repr
 inductive Event (R W D : Type) where
   | call (t : Tid) (c : Call R W D)
   | step (t : Tid)
+  /-- `try_write` of `t` fails although the lock is free, because thread `u` is queued at an acquisition of the
+  access lock: parking_lot's `try_lock_exclusive` is `compare_exchange(0, WRITER_BIT)`, and the state word is
+  `PARKED_BIT` — not 0 — between an unlock that woke some of the parked threads and the moment the last parked
+  thread has left the queue.  (Observed in recorded executions of the real store: `vharness lockrec`.) -/
+  | spur (t u : Tid)
 
 section Sem
 variable {C R W D : Type} [DecidableEq R] (ops : DbOps C R W D)
@@ -327,6 +332,13 @@ def blocked (s : S C R W D) (t : Tid) : Bool :=
   | .mLock :: _ => s.m.isSome
   | _ => false
 
+/-- the head micro-step is a blocking acquisition of the access lock by a thread that does not own WRITER_BIT:
+the thread may be parked in the lock's queue -/
+def isQueued {R W D : Type} : List (Instr R W D) → Bool
+  | .aRead _ :: _ => true
+  | .aWrite1 :: _ => true
+  | _ => false
+
 def next (s : S C R W D) : Event R W D → S C R W D × StepRes
   | .call t c =>
     if (s.thr t).prog.isEmpty then
@@ -336,6 +348,11 @@ def next (s : S C R W D) : Event R W D → S C R W D × StepRes
     match (s.thr t).prog with
     | [] => (s, .idle)
     | i :: rest => exec ops s t i rest
+  | .spur t u =>
+    match (s.thr t).prog with
+    | .aTryWrite :: _ =>
+      if u ≠ t ∧ isQueued (s.thr u).prog = true then (abort s t .busy, .finished .busy) else (s, .misuse)
+    | _ => (s, .misuse)
 
 def run (s : S C R W D) (evs : List (Event R W D)) : S C R W D := evs.foldl (fun s e => (next ops s e).1) s
 
